@@ -42,6 +42,9 @@ type Case struct {
 	Msgs    []Msg `json:"msgs"`
 	Cuts    []int `json:"cuts"`
 	Partial int   `json:"partial,omitempty"` // bytes of an extra incomplete message appended at the end
+	// Verbose: the process-wide log verbosity is 5 while the case runs (the handler has V(4)/V(5)
+	// blocks on its error paths; output is discarded)
+	Verbose bool `json:"verbose,omitempty"`
 }
 
 var rec *ev.Recorder
@@ -242,6 +245,10 @@ type Stats struct{ CutInside, CutInPeek, Dribble bool }
 func runCase(c Case, st *Stats) *ev.Failure {
 	if st == nil {
 		st = &Stats{}
+	}
+	if c.Verbose {
+		glue.SetKlogVerbosity(5)
+		defer glue.SetKlogVerbosity(0)
 	}
 	msgs, valid := build(c)
 	var stream []byte
@@ -607,6 +614,8 @@ func runRecorded(phase string, c Case) *ev.Failure {
 type LongCase struct {
 	TLS    bool `json:"tls"`
 	PauseS int  `json:"pause_s"`
+	// AtBoundary: the pause falls between two messages instead of inside one
+	AtBoundary bool `json:"at_boundary,omitempty"`
 }
 
 var (
@@ -677,13 +686,17 @@ func runLong(c LongCase) *ev.Failure {
 		}
 		return nil
 	}
-	for _, b := range [][]byte{msgs[0], msgs[1], msgs[2][:9]} {
+	cutAt := 9
+	if c.AtBoundary {
+		cutAt = 0
+	}
+	for _, b := range [][]byte{msgs[0], msgs[1], msgs[2][:cutAt]} {
 		if fl := w(b); fl != nil {
 			return fl
 		}
 	}
 	time.Sleep(time.Duration(c.PauseS) * time.Second)
-	for _, b := range [][]byte{msgs[2][9:], msgs[3]} {
+	for _, b := range [][]byte{msgs[2][cutAt:], msgs[3]} {
 		if fl := w(b); fl != nil {
 			return fl
 		}
@@ -711,9 +724,10 @@ func runLong(c LongCase) *ev.Failure {
 
 func TestC11(t *testing.T) {
 	// long-lived sessions run beside everything else (they mostly sleep)
-	longCases := []LongCase{{TLS: true, PauseS: 6}, {TLS: false, PauseS: 6}}
+	longCases := []LongCase{{TLS: true, PauseS: 6}, {TLS: false, PauseS: 6}, {TLS: false, PauseS: 6, AtBoundary: true}}
 	if rec.Thorough() && ev.Shard() <= 1 {
-		longCases = append(longCases, LongCase{TLS: true, PauseS: 12}, LongCase{TLS: true, PauseS: 35}, LongCase{TLS: false, PauseS: 35}, LongCase{TLS: true, PauseS: 65})
+		longCases = append(longCases, LongCase{TLS: true, PauseS: 12}, LongCase{TLS: true, PauseS: 35}, LongCase{TLS: false, PauseS: 35}, LongCase{TLS: true, PauseS: 65},
+			LongCase{TLS: false, PauseS: 35, AtBoundary: true}, LongCase{TLS: true, PauseS: 65, AtBoundary: true})
 	}
 	longFails := make([]*ev.Failure, len(longCases))
 	var lw sync.WaitGroup
@@ -762,6 +776,14 @@ func TestC11(t *testing.T) {
 					rec.Violation("exhaustive_cuts", c, f.Msg)
 					t.Fatalf("%s", f.Msg)
 				}
+				if a%3 == 0 { // every third single cut again at log verbosity 5
+					cv := c
+					cv.Verbose = true
+					if f := runRecorded("exhaustive_cuts", cv); f != nil {
+						rec.Violation("exhaustive_cuts", cv, f.Msg)
+						t.Fatalf("%s", f.Msg)
+					}
+				}
 				if !pairs {
 					continue
 				}
@@ -796,6 +818,7 @@ func TestC11(t *testing.T) {
 	}
 	genRandom := func(t *rapid.T) Case {
 		var c Case
+		c.Verbose = rapid.IntRange(0, 4).Draw(t, "verbose") == 0
 		n := rapid.IntRange(1, 6).Draw(t, "n")
 		bad := -1
 		if rapid.Bool().Draw(t, "hasbad") {
